@@ -349,11 +349,12 @@ def _frame(ctx, SPEC):
             if nm in ("reserved", "unused"):
                 ctx.check(desc == {"always": "0"}, RE, key, body["file"], "%s bit must be written as 0" % nm, observed=desc)
             elif nm == "content_checksum_flag":
-                ctx.check(desc in ({"self.content_checksum": "1", "else": "0"}, {"always": "(self.content_checksum as )"},
-                                   {"always": "(self.content_checksum as u64)"}, {"always": "(self.content_checksum as usize)"}), RE, key, body["file"],
+                ctx.check(desc == {"self.content_checksum": "1", "else": "0"} or
+                          (set(desc) == {"always"} and re.fullmatch(r"\(self\.content_checksum as \w*\)", desc["always"] or "") is not None), RE, key, body["file"],
                           "checksum bit must be 1 exactly when content_checksum is set", observed=desc)
             elif nm == "single_segment_flag":
-                ctx.check(desc == {"self.single_segment": "1", "else": "0"}, RE, key, body["file"],
+                ctx.check(desc == {"self.single_segment": "1", "else": "0"} or
+                          (set(desc) == {"always"} and re.fullmatch(r"\(self\.single_segment as \w*\)", desc["always"] or "") is not None), RE, key, body["file"],
                           "single-segment bit must mirror the field", observed=desc)
             elif nm == "dict_id_flag":
                 ok = desc == {"always": "0"} if "dictionary_id" in always_none else ("table" in desc)
@@ -394,8 +395,7 @@ def _frame(ctx, SPEC):
                 ok = _window_byte_ok(sb, wnode)         # not a closed-form expression of the window size: the reviewed shape
             elif not ok:
                 wgot = "%s: %s" % (wgot, wwhy)
-            pcs = [p["cond"] for p in ix.path_conditions(outs[2][2])]
-            ok = ok and any("single_segment" in p and p.startswith("!") for p in pcs)
+            ok = ok and _not_single_segment(ix, outs[2][2])
         ctx.check(ok, RE, "serialize::window-descriptor", sb["file"],
                   "the window descriptor byte (exponent << 3 | mantissa) must describe, by the RFC formula, a window at least as large as the "
                   "one requested, for every window size from 1 byte to 2^41 (evaluated at every power of two, every mantissa step and their "
@@ -403,12 +403,42 @@ def _frame(ctx, SPEC):
     ctx.guard(RE, "writer", writer)
 
 
+def _let_field_pos(let, field):
+    """position of `self.<field>` in the scrutinee of an `if let`: 0 for `= self.field`, i for the i-th member of a tuple scrutinee
+    (`if let (false, Some(w)) = (self.a, self.b)`); None if absent"""
+    init = hq.peel(let.get("init") or {})
+    if (hq.self_fields(init) or [None])[-1] == field:
+        return 0
+    if init.get("k") == "Tup":
+        for i, e in enumerate(init.get("elems") or ()):
+            if (hq.self_fields(hq.peel(e)) or [None])[-1] == field:
+                return i
+    return None
+
+
+def _not_single_segment(ix, site):
+    """the write happens only when `self.single_segment` is false: a negated path condition, or the `false` member of a tuple pattern"""
+    for p in ix.path_conditions(site):
+        c = p["cond"]
+        if "single_segment" in c and c.startswith("!"):
+            return True
+        n = p.get("node") or {}
+        lt = n if n.get("k") == "Let" else hq.peel(n.get("cond") or {}) if n.get("k") == "If" else {}
+        if lt.get("k") == "Let" and hq.peel(lt.get("init") or {}).get("k") == "Tup" and lt["pat"].get("k") == "Tuple":
+            i = _let_field_pos(lt, "single_segment")
+            pats = lt["pat"].get("pats") or []
+            if i is not None and i < len(pats) and pats[i].get("k") == "ExprPat" and (pats[i]["e"].get("lit") or {}).get("bool") is False \
+                    and p.get("kind") not in ("else",) and not c.startswith("!"):
+                return True
+    return False
+
+
 def _window_byte_eval(body, node):
     """(True|False|None, why): evaluate the descriptor byte as a function of the requested window size (the binding of
     `if let Some(w) = self.window_size`) over a finite set of sizes that contains every boundary of the exponent/mantissa
     grid up to 2^41, and decode it with RFC 8878 3.1.1.1.2.  None: not evaluable (caller falls back to the shape)."""
     from .. import ieval
-    lets = [x for x in hq.find(body["body"], lambda x: x.get("k") == "Let" and (hq.self_fields(x.get("init") or {}) or [None])[-1] == "window_size")]
+    lets = [x for x in hq.find(body["body"], lambda x: x.get("k") == "Let" and _let_field_pos(x, "window_size") is not None)]
     if len(lets) != 1:
         return None, "no single `if let Some(w) = self.window_size`"
     binds = []
